@@ -18,10 +18,10 @@ pub const DEF: PropDef = PropDef {
     run,
     replay,
     level: "exploration",
-    rule: "cases = (handshake string, suite, backend, per-message failing attempts from the C07 fault alphabet each followed by a retry with a DIFFERENT payload, then a transport script over {write, failing write, auto rekey of either direction on either side, manual rekey with fresh keys, stateless writes with distinct nonces per key epoch (numbering may restart at 0 after the SENDER installed a fresh manual key for its direction), set_receiving_nonce on either side (also the send-only side of one-way patterns), delivery of the last written message, the sending counter moved forward to 2^64-1-k and writes / rekeys there}); both endpoints use a recording cipher/DH and a seeded RNG that yields fresh bytes on every draw. Oracle: in the merged log of both endpoints no two Enc records share (key, nonce) with different (ad, plaintext) (rekey encryptions included); for every written message containing `e`, the public key on the wire is the DH public key of bytes drawn from the RNG during that very call. Non-trivial = the history contains a failed call that was retried, or a rekey; distinct by (name, suite, faults, transport script)",
+    rule: "cases = (handshake string, suite, backend, per-message failing attempts from the C07 fault alphabet each followed by a retry with a DIFFERENT payload, then a transport script over {write, failing write, auto rekey of either direction on either side, manual rekey with fresh keys or (stateful mode) with the SAME keys as the previous manual rekey, stateless writes with distinct nonces per key epoch (numbering may restart at 0 after the SENDER installed a fresh manual key for its direction), set_receiving_nonce on either side (also the send-only side of one-way patterns), delivery of the last written message, the sending counter moved forward to 2^64-1-k and writes / rekeys there}); both endpoints use a recording cipher/DH and a seeded RNG that yields fresh bytes on every draw. Oracle: in the merged log of both endpoints no two Enc records share (key, nonce) with different (ad, plaintext) (rekey encryptions included); for every written message containing `e`, the public key on the wire is the DH public key of bytes drawn from the RNG during that very call. Non-trivial = the history contains a failed call that was retried, or a rekey; distinct by (name, suite, faults, transport script)",
     technique: "history invariant over an instrumented CryptoResolver (recording cipher + recording RNG), fault schedules enumerated from reference field maps + proptest",
     assumptions: &[
-        "caller-induced reuse is out of domain: fixed ephemerals, duplicate stateless nonces, backward moves of the sending counter with the verif hook and manual rekeys to an already used key are not generated (the hook is only used to move a sending counter forward to 2^64-1-k)",
+        "caller-induced reuse is out of domain: fixed ephemerals, duplicate stateless nonces, backward moves of the sending counter with the verif hook and, in stateless mode, manual rekeys to an already used key are not generated (the hook is only used to move a sending counter forward to 2^64-1-k)",
         "the recording cipher runs the trait's default rekey through its own logged encrypt/set (no backend overrides rekey)",
     ],
     panic_is_violation: false,
@@ -36,7 +36,8 @@ pub enum TOp {
     FailWrite(bool, u8),
     /// auto rekey: (side initiator?, outgoing?)
     Rekey(bool, bool),
-    /// manual rekey with a fresh key: (side initiator?, which: 0 initiator key, 1 responder key, 2 both)
+    /// manual rekey: (side initiator?, which % 3: 0 initiator key, 1 responder key, 2 both; which < 3 fresh keys,
+    /// which >= 3 in stateful mode the same keys as last time)
     Manual(bool, u8),
     /// deliver garbage to the reader (must not matter)
     ReadGarbage(bool, usize),
@@ -411,7 +412,14 @@ pub fn oracle(c: &Case, acc: &mut Acc) -> CaseResult {
                     },
                     TOp::Manual(side_i, which) => {
                         rekeys_done += 1;
-                        fresh += 2;
+                        // which >= 3 (stateful mode only): the SAME manual keys as last time are
+                        // installed again (a repeated rekey instruction). The counters of a stateful
+                        // session only move forward, so this is safe on the caller's part.
+                        if *which < 3 {
+                            fresh += 2;
+                        } else {
+                            acc.label("manual_rekey:same keys installed again (stateful)");
+                        }
                         let k1 = expand32(spec.key_seed, 9000 + fresh);
                         let k2 = expand32(spec.key_seed, 9001 + fresh);
                         let t = if *side_i { &mut ti } else { &mut tr };
@@ -486,6 +494,10 @@ fn default_tops() -> Vec<TOp> {
         TOp::Manual(true, 2),
         TOp::Write(true, 3),
         TOp::Write(false, 3),
+        TOp::Manual(true, 5),
+        TOp::Write(true, 4),
+        TOp::Manual(false, 5),
+        TOp::Write(false, 4),
         TOp::Rekey(true, true),
         TOp::Rekey(true, true),
         TOp::Write(true, 3),
@@ -512,7 +524,7 @@ fn top_strategy() -> impl Strategy<Value = TOp> {
         5 => (any::<bool>(), 0usize..40).prop_map(|(a, b)| TOp::Write(a, b)),
         1 => (any::<bool>(), 0u8..2).prop_map(|(a, b)| TOp::FailWrite(a, b)),
         3 => (any::<bool>(), any::<bool>()).prop_map(|(a, b)| TOp::Rekey(a, b)),
-        1 => (any::<bool>(), 0u8..3).prop_map(|(a, b)| TOp::Manual(a, b)),
+        1 => (any::<bool>(), 0u8..6).prop_map(|(a, b)| TOp::Manual(a, b)),
         1 => (any::<bool>(), 0usize..60).prop_map(|(a, b)| TOp::ReadGarbage(a, b)),
         1 => (any::<bool>(), prop_oneof![Just(32usize), 0usize..40]).prop_map(|(a, b)| TOp::WriteAtMax(a, b)),
         1 => (any::<bool>(), 0u8..6).prop_map(|(a, b)| TOp::SetRecvNonce(a, b)),
